@@ -114,6 +114,10 @@ fn signature(sc: &Scenario, obs: &Observation, facts: &Facts, judgements: &[DocJ
     fk.sort();
     fk.dedup();
     s.push_str(&format!("|f{:?}|x{:?}|a{:?}", fk, obs.exit_status, obs.sim_abort.is_some()));
+    if let Some(d) = &obs.duo {
+        // the interleaving is part of what makes a duo run distinct
+        s.push_str(&format!("|duo{:?}x{:?}:{}", d.partner.exit_status, d.labels.len(), d.labels.join(",")));
+    }
     let nontrivial = !facts.procs.is_empty() || !facts.spawn_failed.is_empty();
     (s, nontrivial)
 }
@@ -178,6 +182,17 @@ fn probes(sc: &Scenario, obs: &Observation, facts: &Facts, judgements: &[DocJudg
     }
     if sc.sim.swarm.pipe_capacity == 4096 {
         hit("4 KiB pipes");
+    }
+    if let Some(d) = &obs.duo {
+        hit("duo: two scrut processes at the same time");
+        *st.probes.entry("duo: turn decisions".into()).or_insert(0) += d.turns.len() as u64;
+        *st.probes.entry("duo: switches between the processes".into()).or_insert(0) += d.switches as u64;
+        let last = |who: &str| d.labels.iter().rposition(|l| l.starts_with(who));
+        if let (Some(a), Some(b)) = (last("a:"), d.labels.iter().position(|l| l.starts_with("b:") && !l.ends_with("start"))) {
+            if a > b {
+                *st.probes.entry("duo: one process cleaned up while the other was in the middle of its run".into()).or_insert(0) += 1;
+            }
+        }
     }
     let _ = obs;
 }
@@ -473,6 +488,25 @@ fn candidates(sc: &Scenario) -> Vec<Scenario> {
         };
         out.push(c);
     }
+    // duo runs: a simpler partner, a shorter interleaving
+    if let Some(p) = &sc.partner {
+        for pc in candidates(p).into_iter().take(40) {
+            let mut c = sc.clone();
+            c.partner = Some(Box::new(pc));
+            out.push(c);
+        }
+        if let Some(t) = &sc.turns {
+            if !t.is_empty() {
+                let mut c = sc.clone();
+                c.turns = Some(t[..t.len() / 2].to_vec());
+                out.push(c);
+                // (strict alternation is often enough)
+                let mut c = sc.clone();
+                c.turns = Some(vec![]);
+                out.push(c);
+            }
+        }
+    }
     // shorten the tape
     if let Some(t) = &sc.sim.tape {
         if !t.is_empty() {
@@ -494,6 +528,11 @@ pub fn minimise(sc: &Scenario, property: &str, class: &str, budget_runs: usize) 
     let obs = run_scenario(&best);
     let mut pinned = best.clone();
     pinned.sim.tape = Some(obs.tape.clone());
+    if let (Some(d), Some(p)) = (&obs.duo, pinned.partner.as_mut()) {
+        // a duo run: the partner's schedule and the interleaving are pinned as well
+        p.sim.tape = Some(d.partner.tape.clone());
+        pinned.turns = Some(d.turns.clone());
+    }
     let mut used = 1;
     if has_class(&pinned, property, class) {
         best = pinned;
@@ -545,6 +584,10 @@ pub fn normalised_log(obs: &Observation) -> String {
         s.push('\n');
     }
     s.push_str(&format!("exit={:?} sig={:?} abort={:?}\n", obs.exit_status, obs.exit_signal, obs.sim_abort));
+    if let Some(d) = &obs.duo {
+        s.push_str(&format!("duo turns: {:?}\n", d.labels));
+        s.push_str(&normalised_log(&d.partner));
+    }
     s
 }
 
